@@ -150,7 +150,7 @@ class Enc:
             for i in range(len(bc)):
                 o += [pushint(1 if i == 0 else 0), pushint(i)]
         if flags & FLAG_HASCLOBITSET:
-            n = (d.get("slotcount", 1) + 31) >> 5
+            n = min(max((d.get("slotcount", 1) + 31) >> 5, 0), 64)   # keep generated images small even for huge slot counts
             bits = d.get("clobitset", [0xFFFFFFFF] * n)
             for w in bits:
                 o.append(struct.pack("<I", w & 0xFFFFFFFF))
@@ -567,3 +567,137 @@ def asm_text(d, rng=None, junk=False):
                  ":symbolmap [(0 1 2 x)]", ":symbolmap [(:top 100000 70000 x)]", ":defs [{}]"][j]
         parts.append(extra)
     return "{" + " ".join(parts) + "}"
+
+
+# ------------------------------------------------------------------------------------------------ modelled fibers
+# Fibers inside the domain of the Lean acceptance model (lean/JanetModel/Unmarsh/Image.lean): every frame function is the
+# fixed, verified `model_fn`; no environments, no child, last value nil.  The generator returns the image description AND
+# the decoded header / frame records that the model is run on.  Mutations keep the equations between the fields consistent
+# (shift frame / stackstart / stacktop together, shift every frame, change a slot count together with the frame width, ...)
+# so that images which pass every *relative* check but violate an *absolute* one are produced, not only rejected noise.
+
+def model_fn(ops, sc):
+    """ldi 0 7; call 1 0; sig 1 0 3; jmp -1 (A byte = 255); ret 0     needs sc >= 2"""
+    bn = ops.by_name
+    bc = [bn["JOP_LOAD_INTEGER"] | 0 << 8 | 7 << 16,
+          bn["JOP_CALL"] | 1 << 8 | 0 << 16,
+          bn["JOP_SIGNAL"] | 1 << 8 | 0 << 16 | 3 << 24,
+          bn["JOP_JUMP"] | (0xFFFFFF << 8),
+          bn["JOP_RETURN"] | 0 << 8]
+    return simple_fn(ops, sc=sc, bc=bc), bc
+
+
+def gen_model_fiber(rng, ops):
+    """returns (fiber description, meta) - meta carries what is needed to derive the records after mutation"""
+    nfr = rng.choice([1, 1, 1, 2, 2, 3, 4])
+    frames = []
+    pos, prev = 0, 0
+    for k in range(nfr):
+        sc = rng.range(2, 5)
+        frame = pos + FRAME_SIZE
+        top = k == nfr - 1
+        frames.append(dict(at=frame, prevframe=prev, sc=sc, width=sc, pc=(rng.choice([2, 2, 2, 0, 1]) if top else 1),
+                           flags=(2 if k == 0 else 0) | rng.choice([0, 0, 1])))
+        prev = frame
+        pos = frame + sc
+    stackstart = pos + FRAME_SIZE
+    extra = rng.choice([0, 0, 0, 2])
+    status = rng.choice([ST_PENDING, ST_PENDING, ST_PENDING, ST_NEW, ST_DEBUG, ST_USER0 + 5, ST_ERROR, ST_DEAD, ST_USER0, ST_ALIVE])
+    fl = rng.choice([0, 0xE, 0x3FFE])
+    if status == ST_NEW:
+        fl |= NO_USEVAL | NO_SKIP
+    m = dict(frames=frames, frame=frames[-1]["at"], stackstart=stackstart, stacktop=stackstart + extra,
+             maxstack=rng.choice([8192, 2 ** 31 - 1, stackstart + extra]), status=status, lowflags=fl)
+    return m
+
+
+def mutate_model_fiber(rng, m):
+    """equation-preserving and single-field mutations; returns a label"""
+    frs = m["frames"]
+    k = rng.below(20)
+    if not frs and k in (4, 5, 6, 7, 8, 9, 10, 11, 18):
+        k = 12 + k % 6
+    if k == 0:
+        return "none"
+    if k in (1, 2, 3):
+        d = rng.choice([-1, -2, -3, -4, -5, -8, 1, 2, 3, 8])
+        for fr in frs:
+            fr["at"] += d
+            if fr["prevframe"] != 0:
+                fr["prevframe"] += d
+        m["frame"] += d; m["stackstart"] += d; m["stacktop"] += d
+        return "shift-all%+d" % d
+    if k == 4:
+        d = rng.choice([-1, -2, -3, 1, 2])
+        i = rng.below(len(frs))
+        for j, fr in enumerate(frs):
+            if j >= i:
+                fr["at"] += d
+            if j > i:
+                fr["prevframe"] += d
+        m["frame"] = frs[-1]["at"]; m["stackstart"] += d; m["stacktop"] += d
+        return "shift-upper%+d" % d       # frame i and everything above it: the gap below frame i changes
+    if k == 5:
+        i = rng.below(len(frs)); d = rng.choice([-1, 1, 2])
+        frs[i]["sc"] = max(2, frs[i]["sc"] + d)
+        dd = frs[i]["sc"] - frs[i]["width"]
+        frs[i]["width"] = frs[i]["sc"]
+        for j, fr in enumerate(frs):
+            if j > i:
+                fr["at"] += dd; fr["prevframe"] += dd
+        m["frame"] = frs[-1]["at"]; m["stackstart"] += dd; m["stacktop"] += dd
+        return "resize-frame-consistent"
+    if k == 6:
+        i = rng.below(len(frs)); frs[i]["sc"] = max(2, frs[i]["sc"] + rng.choice([-1, 1])); return "slotcount-only"
+    if k == 7 and len(frs) > 2:
+        frs[-1]["prevframe"] = frs[-3]["at"]; return "prevframe-skips-a-frame"
+    if k == 8:
+        i = rng.below(len(frs)); frs[i]["prevframe"] = max(0, frs[i]["prevframe"] + rng.choice([-1, 1, -4, 4])); return "prevframe+-"
+    if k == 9:
+        i = rng.below(len(frs)); frs[i]["prevframe"] = 0; return "prevframe=0"
+    if k == 10:
+        i = rng.below(len(frs)); frs[i]["flags"] ^= 2; return "toggle-entrance"
+    if k == 11:
+        i = rng.below(len(frs)); frs[i]["pc"] = rng.choice([0, 1, 2, 3, 4, 5]); return "pc"
+    if k == 12:
+        m["status"] = rng.choice([ST_DEAD, ST_ERROR, ST_DEBUG, ST_PENDING, ST_USER0, ST_USER0 + 4, ST_USER0 + 5, ST_USER0 + 9, ST_NEW, ST_ALIVE, 16, 40]); return "status"
+    if k == 13:
+        m["lowflags"] ^= rng.choice([NO_USEVAL, NO_SKIP, NO_USEVAL | NO_SKIP, BREAKPOINT, DID_LONGJUMP]); return "resume-flags"
+    if k == 14:
+        m["frame"] = rng.choice([0, m["frame"] + 1, max(0, m["frame"] - 1), frs[0]["at"] if frs else 4]); return "frame-field"
+    if k == 15:
+        d = rng.choice([-1, 1, -4]); m["stackstart"] = max(0, m["stackstart"] + d); return "stackstart-only"
+    if k == 16:
+        m["stacktop"] = max(0, m["stacktop"] + rng.choice([-1, 1, 5])); return "stacktop-only"
+    if k == 17:
+        m["maxstack"] = rng.choice([m["stacktop"], max(0, m["stacktop"] - 1), 0]); return "maxstack"
+    if k == 18 and len(frs) > 1:
+        frs.pop(0); return "drop-bottom-record"
+    m["frames"] = []; m["frame"] = 0; m["stackstart"] = rng.choice([4, 5]); m["stacktop"] = m["stackstart"]; return "no-frames"
+
+
+def render_model_fiber(enc, ops, m):
+    """-> (image bytes, model protocol line or None when a field is outside the model's domain (negative))"""
+    frs = m["frames"]
+    vals = [m["frame"], m["stackstart"], m["stacktop"], m["maxstack"]] + [x for fr in frs for x in (fr["at"], fr["prevframe"], fr["pc"])]
+    recs = []
+    frames_desc = []
+    for fr in reversed(frs):       # image order: top-most first
+        fn, bc = model_fn(ops, fr["sc"])
+        frames_desc.append(dict(flags=fr["flags"], prevframe=fr["prevframe"], pc=fr["pc"], fn=fn, env=None, slots=[None] * fr["sc"]))
+        pc = fr["pc"]
+        inr = 0 <= pc < len(bc)
+        w = bc[pc] if inr else 0
+        recs += [1 if fr["flags"] & 2 else 0, fr["prevframe"], pc, fr["sc"], len(bc),
+                 1 if (w & 0x7F) == ops.by_name["JOP_CALL"] else 0, 1 if ((w >> 8) & 0xFF) < fr["sc"] else 0]
+    flags = (m["status"] << STATUS_OFFSET) | m["lowflags"]
+    f = dict(flags=flags, frame=m["frame"], stackstart=m["stackstart"], stacktop=m["stacktop"], maxstack=m["maxstack"],
+             frames=frames_desc, env=None, child=None, last=None)
+    img = enc.val(("fiber", f))
+    if min(vals) < 0 or max(vals) >= 2 ** 30:
+        return img, None
+    line = "fiber %d %d %d %d %d %d %d" % (m["status"], 1 if m["lowflags"] & NO_USEVAL else 0, 1 if m["lowflags"] & NO_SKIP else 0,
+                                         m["frame"], m["stackstart"], m["stacktop"], m["maxstack"])
+    if recs:
+        line += " " + " ".join(str(x) for x in recs)
+    return img, line
